@@ -251,6 +251,9 @@ func c02Store(flip int) []refstore.Pair {
 		if (i+flip)%2 == 1 {
 			v = "1"
 		}
+		if flip == 1 && (i%5 == 2 || k == "ab" || k == "c") {
+			v = "" // a stored pair with an empty value is a pair like any other
+		}
 		ps[i] = refstore.Pair{K: k, V: v}
 	}
 	return ps
